@@ -3,6 +3,8 @@
 # show up when everything is imported together), and MANIFEST.json is regenerated and valid
 set -e
 cd "$(dirname "$0")/.."
+# generated Lean data may be stale (e.g. left over from a run against a seeded change): regenerate from /repo first
+python3 -c "import sys; sys.path.insert(0, 'tools'); import common as C; C.build_core(); print('regenerated:', C.regenerate())"
 (cd lean && lake build EtkVerif etkmodel 2>&1 | grep -v "^✔" | tail -5)
 python3 tools/gen_manifest.py > /dev/null
 python3 - <<'PY'
